@@ -30,17 +30,19 @@ DRIVER_MODULES = ["PsutilModel.Model.C12Gen", "PsutilModel.Spec.C12"]
 NEEDS_EXT = True
 TRUSTED = [
     "C12 strings: psutil's str values are UTF-8+surrogateescape decodings (PYTHONUTF8=1 pinned by ./check), a bijection with byte strings; the ASCII-literal operations (split/endswith/find/in/rfind('/')) are modelled on bytes; the two places where the code as found is not byte-transparent (universal-newline translation in open_text; len()/startswith() of name() on code points) are modelled explicitly (nlTranslate, chars) and switched by translator facts",
-    "C12 world: one PID; /proc/<pid>/stat parsing itself (comm between the first '(' and the last ')', state letter) is C06's subject and enters here as `comm`/`zombie`; os.stat/os.access/os.path.isfile of paths outside procfs are a parameter (`fs`) of model and theorems",
+    "C12 world: one PID; `_parse_stat_file`'s parsing of /proc/<pid>/stat (comm between the first '(' and the last ')') is C06's subject and enters here as `comm`; `_is_zombie`'s OWN parser of the same file (byte 2 after the last ')' compared with 'Z') is pinned by the facts isZombieLastParen / isZombieStateWindow / isZombieLetter (cfg_zombie_parser) and exercised with names containing ')' (PAREN_COMMS); the world says separately whether /proc/<pid>, /proc/<pid>/stat exist and whether stat is readable; os.stat/os.access/os.path.isfile of paths outside procfs are a parameter (`fs`) of model and theorems",
     "C12 identity: the real uid of /proc/<pid>/status and tty_nr of /proc/<pid>/stat enter as `uid`/`tty`; pwd.getpwuid and glob('/dev/tty*')+os.stat().st_rdev are answered from the case's tables (`users`, `ttys`)",
     "C12 modes: the harness predicts what a oneshot() block has cached from the warm-up calls it made itself (which front-end methods read stat / status is listed in STAT_READERS / STATUS_READERS); ppid()/is_running() are only run while /proc/<pid> exists (their `_gone` memory is C01/C02's subject); as_dict(attrs=[call, extras]) uses extras that cannot raise NoSuchProcess while /proc/<pid> exists",
 ]
 MANIFEST = {
-    "level_text": "Machine-checked Lean 4 proofs over a model of _pslinux.Process.cmdline/environ/exe/cwd (+ readlink, _readlink, wrap_exceptions), _common.parse_environ_block and the front ends psutil.Process.exe()/name()/username()/terminal(): for EVERY byte string / world, the model equals a byte-level specification written from the property statement (C12_cmdline_spec, C12_environ_spec, C12_file_errors for OS errors on the files themselves, C12_link_cleanup, C12_link_withheld, C12_exe_fallback, C12_exe_refines over all call histories incl. memoisation, one closed-form theorem per documented branch of exe(): C12_exe_native / _native_error / _denied / _withheld / _eacces_link, C12_name_rule, C12_name_when_cmdline_raises and C12_name_zombie_or_denied (a zombie or a process with an unreadable cmdline keeps the kernel's name; NoSuchProcess propagates), C12_cwd_exe_zombie, C12_zombie_identity (a zombie still has an owner and a terminal), C12_call_refines), plus kernel-layout round-trips for every argv without NUL (C12_cmdline_roundtrip, under the stated hypothesis about a single space-containing argument, with the counterexample showing the hypothesis is needed) and every environment (C12_environ_roundtrip), C12_oneshot_same_answers (inside oneshot() every call answers as outside for the world 'block-cached stat/status as first read, everything else as now'), and proved counterexamples for the two defects re-found (name() testing code points instead of bytes; open_text translating CR). Characterisations of what is returned for files a rewritten title leaves behind (C12_cmdline_setproctitle: from the memory layout of the nginx/sshd/postgres way of writing a title through the kernel's get_mm_cmdline rule to the returned list; C12_cmdline_padded_title: title + k+2 NULs = the title unsplit + k+1 empty strings; C12_cmdline_title_leftover; C12_cmdline_unterminated: a file cut by a one-page kernel is read as a space-separated title with the NULs inside the strings) and for environment blocks (C12_environ_unterminated_tail: a block cut at 4096 bytes loses exactly the cut entry; C12_environ_not_assignment_ignored: 'B', '=x'; C12_environ_any_value: newlines etc.; C12_environ_duplicates). Tied to the code by translator facts (all separator literals, the 'exactly one trailing separator is removed' shape of cmdline() with the proved counterexample C12_cmdline_strip_one_needed for rstrip, ' (deleted)', 10, 15, bytes-vs-str test in name(), newline mode of open_text, and the except clauses of name() around cmdline() and of exe() around _proc.exe() / guess_it() in source order with what their bodies do, read with Python's first-matching-clause and subclass rules: cfg_except_clauses, C12_except_clause_order_matters) feeding the proof obligation cfg_good, and by a differential run of the real methods over a fake procfs in which every call is made in one of ten call modes (plain, oneshot, nested, warm block cache filled in an earlier world, after a block, as_dict with one/many attrs, as_dict inside oneshot, twice, re-fetched from process_iter) on objects from the constructor, process_iter() and process_iter(attrs=...).",
-    "level_note": "Trusted: Lean kernel + {propext, Classical.choice, Quot.sound}; the translator; the correspondence harness; str<->bytes bijection under PYTHONUTF8=1; stat/status parsing (C06) enters as comm/zombie/tty_nr/real uid; the user database and the terminal map are parameters; ENOENT on the cmdline/environ file of a live process whose /proc/<pid> exists and a denied existence test are outside the statement (model-vs-code only); a cached source outliving /proc/<pid> inside a block is C16's; a single argument containing a space is indistinguishable from a rewritten title in the bytes the kernel exposes (hypothesis of the round-trip).",
-    "technique": "Lean 4 case analysis and list induction (model = byte-level spec for all inputs; renderer round-trips; history refinement for the exe() memo; block-view lemma for oneshot) + translator-fed proof obligation + differential correspondence on a fake procfs across call modes and object sources, with exhaustive sweeps around the 15-byte name boundary, over the branches of exe(), over modes x calls x objects, and over ALL environ files on {A,=,NUL,LF} up to 7 bytes and ALL cmdline files on {a,SP,NUL} up to 8 bytes; cmdline files of the random families also come from a simulator of the kernel's get_mm_cmdline / one-page proc_pid_cmdline applied to real setproctitle memory layouts (checked against Spec.kernelCmdline on every run)",
+    "level_text": "Machine-checked Lean 4 proofs over a model of _pslinux.Process.cmdline/environ/exe/cwd (+ readlink, _readlink, wrap_exceptions), _common.parse_environ_block and the front ends psutil.Process.exe()/name()/username()/terminal(): for EVERY byte string / world, the model equals a byte-level specification written from the property statement (C12_cmdline_spec, C12_environ_spec, C12_file_errors for OS errors on the files themselves, C12_link_cleanup, C12_link_withheld, C12_exe_fallback, C12_exe_refines over all call histories incl. memoisation, one closed-form theorem per documented branch of exe(): C12_exe_native / _native_error / _denied / _withheld / _eacces_link, C12_name_rule, C12_name_when_cmdline_raises and C12_name_zombie_or_denied (a zombie or a process with an unreadable cmdline keeps the kernel's name; NoSuchProcess propagates), C12_cwd_exe_zombie, C12_zombie_identity (a zombie still has an owner and a terminal), C12_call_refines), plus kernel-layout round-trips for every argv without NUL (C12_cmdline_roundtrip, under the stated hypothesis about a single space-containing argument, with the counterexample showing the hypothesis is needed) and every environment (C12_environ_roundtrip), C12_oneshot_same_answers (inside oneshot() every call answers as outside for the world 'block-cached stat/status as first read, everything else as now'), and proved counterexamples for the two defects re-found (name() testing code points instead of bytes; open_text translating CR). Characterisations of what is returned for files a rewritten title leaves behind (C12_cmdline_setproctitle: from the memory layout of the nginx/sshd/postgres way of writing a title through the kernel's get_mm_cmdline rule to the returned list; C12_cmdline_padded_title: title + k+2 NULs = the title unsplit + k+1 empty strings; C12_cmdline_title_leftover; C12_cmdline_unterminated: a file cut by a one-page kernel is read as a space-separated title with the NULs inside the strings) and for environment blocks (C12_environ_unterminated_tail: a block cut at 4096 bytes loses exactly the cut entry; C12_environ_not_assignment_ignored: 'B', '=x'; C12_environ_any_value: newlines etc.; C12_environ_duplicates). Tied to the code by translator facts (all separator literals, the 'exactly one trailing separator is removed' shape of cmdline() with the proved counterexample C12_cmdline_strip_one_needed for rstrip, ' (deleted)', 10, 15, bytes-vs-str test in name(), newline mode of open_text, and the except clauses of name() around cmdline() and of exe() around _proc.exe() / guess_it() in source order with what their bodies do, read with Python's first-matching-clause and subclass rules: cfg_except_clauses, C12_except_clause_order_matters) feeding the proof obligation cfg_good, and by a differential run of the real methods over a fake procfs in which every call is made in one of ten call modes (plain, oneshot, nested, warm block cache filled in an earlier world, after a block, as_dict with one/many attrs, as_dict inside oneshot, twice, re-fetched from process_iter) on objects from the constructor, process_iter() and process_iter(attrs=...). Round 3 (audit): the world separates '/proc/<pid> exists' / 'stat exists' / 'stat readable' (C12_vanishing_process: directory still listed, stat gone = NoSuchProcess, psutil #2418, pinned by cfg_gone_test; C12_stat_unreadable; C12_link_withheld_unknown_liveness is a characterisation); branch-free invariants about the world only, not going through the spec's exception arms (C12_exe_result_invariant: a returned string is the clean link target, a guessable argv[0], or '' for a withheld link of a process not known to be a zombie; C12_exe_remembers_only_what_it_returned for every configuration; C12_exe_denied_never_remembered; C12_zombie_never_empty_string); C12_exe_withheld_link (the withheld branch stated on the world); the silent region of the specification delimited exactly (C12_silent_region, C12_call_refines_outside_silent); further obligations cfg_block_cached_sources (translator's list of @memoize_when_activated methods and of what oneshot_enter / Process.oneshot activate: none of C12's methods is block-cached), cfg_zombie_parser, cfg_text_decoding (open_text decodes with the file-system encoding and error handler). HONEST LABELS: the theorems comparing model and spec on exception arms (C12_file_errors, C12_exe_denied/_withheld/_eacces_link, C12_name_when_cmdline_raises, C12_link_withheld) and on NUL-padded titles / cut files are characterisations of the code (the spec's arms there are a declarative transcription of what the front end documents, see the header of Spec/C12.lean); C12_exe_cached, C12_zombie_identity and C12_oneshot_same_answers are facts about the model whose weight is the correspondence.",
+    "level_note": "Trusted: Lean kernel + {propext, Classical.choice, Quot.sound}; the translator; the correspondence harness; str<->bytes bijection under PYTHONUTF8=1; stat/status parsing (C06) enters as comm/zombie/tty_nr/real uid; the user database and the terminal map are parameters; ENOENT on the cmdline/environ file of a live process whose /proc/<pid> exists and a denied existence test, and a withheld link while stat is missing/unreadable are outside the statement (model-vs-code only; exactly the predicate `Silent` of C12_silent_region); a cached source outliving /proc/<pid> inside a block is C16's; a single argument containing a space is indistinguishable from a rewritten title in the bytes the kernel exposes (hypothesis of the round-trip).",
+    "technique": "Lean 4 case analysis and list induction (model = byte-level spec for all inputs; renderer round-trips; history refinement for the exe() memo; block-view lemma for oneshot) + inversion lemmas for the branch-free invariants + an exact characterisation of where the spec is silent + translator-fed proof obligations (cfg_good, cfg_except_clauses, cfg_block_cached_sources, cfg_gone_test, cfg_zombie_parser, cfg_text_decoding; every extractor total where a value can describe the new shape, each fact extracted on its own) + differential correspondence on a fake procfs across call modes and object sources, with exhaustive sweeps around the 15-byte name boundary, over the branches of exe(), over modes x calls x objects, over stat {missing, unreadable} x {S, Z} x file/link states x 7 calls, over names containing ')' x {S, Z} x 8 situations decided by the zombie test, and over ALL environ files on {A,=,NUL,LF} up to 7 bytes and ALL cmdline files on {a,SP,NUL} up to 8 bytes; cmdline files of the random families also come from a simulator of the kernel's get_mm_cmdline / one-page proc_pid_cmdline applied to real setproctitle memory layouts (checked against Spec.kernelCmdline on every run)",
     "design_ref": "DESIGN.md §5 C12",
 }
 ASSUMPTIONS = [
+    "byte rules not fixed by the statement and chosen to agree with the code (code-derived, Spec/C12.lean header): only ONE trailing space of a NUL-less title is ignored; a cmdline file whose last byte is not NUL keeps its NULs inside the returned strings; an unterminated last environ entry is dropped; an entry with an empty NAME ('=x') is not an assignment",
+    "a title followed by two or more NULs is read under the statement's FIRST rule (it is the kernel layout of the argv [title, '', '', ...]: C12_padded_title_is_an_argv), so it comes back unsplit followed by empty strings; 'split on spaces' applies to a single piece without NUL separators (characterisation of the code, integrator decision)",
     "PYTHONUTF8=1 (pinned by ./check): filesystem encoding utf-8 + surrogateescape, so decoding is byte-transparent",
     "the argv round-trip needs: at least two arguments, or a single argument without a space (otherwise the bytes equal those of a rewritten title)",
 ]
@@ -254,6 +256,34 @@ def _open_text_raw(tree):
         if kw.arg is None:
             raise NotRecognised("open_text: **kwargs")
     return False
+
+
+def _open_text_decoding(tree):
+    """how `open_text` decodes: the expressions behind its `encoding=` and `errors=` keywords, a module-level name
+    being followed to its (single) assignment — total: every shape yields a string"""
+    out = _Keys()
+    fn = extract.find_def(tree, "open_text")
+    calls = [c for c in extract.calls_in(fn, "open") if extract.dotted(c.func) == "open"]
+
+    def resolve(kwname):
+        if len(calls) != 1:
+            return "open-called-%d-times" % len(calls)
+        kws = [kw for kw in calls[0].keywords if kw.arg == kwname]
+        if not kws:
+            return "**kwargs" if any(kw.arg is None for kw in calls[0].keywords) else "default"
+        v = kws[0].value
+        if isinstance(v, ast.Name):
+            assigns = [n for n in tree.body if isinstance(n, ast.Assign) and len(n.targets) == 1
+                       and extract.dotted(n.targets[0]) == v.id]
+            assigns += [n for n in ast.walk(tree) if isinstance(n, (ast.AugAssign, ast.AnnAssign))
+                        and extract.dotted(n.target) == v.id]
+            if len(assigns) != 1 or not isinstance(assigns[0], ast.Assign):
+                return "%s:assigned-%d-times" % (v.id, len(assigns))
+            return extract.unparse(assigns[0].value)
+        return extract.unparse(v)
+    out.put("encoding", lambda: resolve("encoding"))
+    out.put("errors", lambda: resolve("errors"))
+    return out
 
 
 KNOWN_EXC = ("AccessDenied", "ZombieProcess", "NoSuchProcess", "Error", "Exception", "BaseException",
@@ -555,6 +585,10 @@ def facts(snap, F):
               "Process.name(): are the length and prefix tests made on the fs-encoded bytes (true) or on the decoded str (false)?")
     F.try_add("openTextNoNewlineTranslation", "Bool", lambda: extract.lean_bool(_open_text_raw(mod(C))),
               "open_text(): is the file opened with newline='\\n' or '' (true) or in universal-newlines mode (false)?")
+    F.try_add("openTextEncoding", "String", lambda: extract.lean_str(get("t", _open_text_decoding, C).want("encoding")),
+              "open_text(): the expression behind `encoding=` (a module-level name followed to its assignment)")
+    F.try_add("openTextErrors", "String", lambda: extract.lean_str(get("t", _open_text_decoding, C).want("errors")),
+              "open_text(): the expression behind `errors=` (a module-level name followed to its assignment)")
     CL = "List (List String × String)"
     F.try_add("nameCmdlineClauses", CL, lambda: _lean_clauses(get("f", _front_clauses, I).want("name")),
               "Process.name(): the except clauses around `cmdline = self.cmdline()`, in order: (classes, pass|raise|other)")
